@@ -235,7 +235,40 @@ func propertiesUpdates(fn *ssa.Function) []*ssa.MapUpdate {
 
 func isStoreUpdate(i ssa.Instruction) bool {
 	c, ok := i.(ssa.CallInstruction)
-	return ok && core.NameIs(core.CalleeName(c), storagePkg+".Store.Update")
+	if !ok {
+		return false
+	}
+	if core.NameIs(core.CalleeName(c), storagePkg+".Store.Update") {
+		return true
+	}
+	// a small helper of the routing package that writes the item it is handed on every path
+	// (`func (x *T) updateBundleItem(bi storage.BundleItem) { if err := store.Update(bi); err != nil { log } }`)
+	h := c.Common().StaticCallee()
+	if h == nil || !core.IsRepo(h) || h.Blocks == nil || len(h.Blocks) > 8 {
+		return false
+	}
+	for _, u := range core.CallsTo(h, storagePkg+".Store.Update") {
+		item := core.Arg(u, 0)
+		fromParam := false
+		for _, par := range h.Params {
+			if item == ssa.Value(par) || core.DependsOn(item, func(v ssa.Value) bool { return v == ssa.Value(par) }) {
+				fromParam = true
+			}
+		}
+		if !fromParam {
+			continue
+		}
+		all := true
+		for _, ret := range core.Returns(h) {
+			if !core.MustPassBefore(ret, func(x ssa.Instruction) bool { return x == ssa.Instruction(u) }) {
+				all = false
+			}
+		}
+		if all {
+			return true
+		}
+	}
+	return false
 }
 
 // sentListPersisted: fn contains Properties[key] = <value depending on v>
